@@ -22,6 +22,7 @@ import loop
 import c08_fuzz
 import c08_hello
 import c08_resume
+import c08_strings
 
 sys.path.insert(0, os.path.join(vlib.ROOT, 'translator'))
 import units  # noqa: E402
@@ -98,6 +99,9 @@ def fuzz_stage(ctx, quick, pool):
     alerts = c08_fuzz.alert_cases(ctx.rng, profiles, quick)
     ctx.cov['alert_value_cases'] = len(alerts)
     second += alerts
+    strs = c08_strings.string_cases(ctx.rng, profiles, [f['name'] for f in fl], quick)
+    ctx.cov['string_field_cases'] = len(strs)
+    second += strs
     for i, c in enumerate(cases):
         c08_fuzz.resolve_target(c, profiles)
         c.setdefault('mem', i % 6 == 0)
@@ -117,6 +121,9 @@ def fuzz_stage(ctx, quick, pool):
     except OSError:
         pass
     cases = corpus + second + cases
+    for c in cases:
+        if 'base' in c:
+            c['base'].setdefault('cpu', profiles[(c['flavour'], c['role'])][0].get('cpu'))
     ctx.cov['second_step_cases'] = len(second)
     t0 = time.time()
     results = pool.map(c08_fuzz.worker, cases, chunksize=4)
@@ -147,12 +154,44 @@ def fuzz_stage(ctx, quick, pool):
                            'calls': r['calls'], 'peak': r['peak'], 'how': HOW})
     ctx.cov['fuzz'] = {'cases': len(cases), 'mutation_applied': n_applied, 'flavours': len(fl), 'problem_counts': counts,
                        'work_bound': 'calls <= %d*bytes_in + 2*honest_calls(flavour,role) + %d' % (c08_fuzz.WORK_C, c08_fuzz.WORK_C0),
+                       'cpu_bound': 'process CPU time <= %d*honest_cpu(flavour,role) + %.0f s + %.0e*bytes_in (cases without tracemalloc)' % (
+                           c08_fuzz.CPU_K, c08_fuzz.CPU_C0, c08_fuzz.CPU_C),
                        'mem_bound': 'tracemalloc peak <= %d*bytes_in + 2*honest_peak(flavour,role) + %d' % (
                            c08_fuzz.MEM_C, c08_fuzz.MEM_C0)}
     return found
 
 
 # ------------------------------------------------------------------------------------------
+def regex_stage(ctx, pool):
+    """every regular expression of the code under test, on its own pathological inputs: CPU time linear in the length"""
+    t0 = time.time()
+    sites = c08_strings.regex_sites(vlib.REPO)
+    found = False
+    seen = set()
+    shown = []
+    for r in pool.map(c08_strings.site_worker, sites, chunksize=1):
+        path, line, func, fn, pat, flags = r['site']
+        shown.append({'site': '%s:%d %s re.%s' % (path, line, func, fn), 'pattern': repr(pat), 'inputs_timed': r['calls'],
+                      'unanalysed': r['unanalysed']})
+        if r['unanalysed']:
+            ctx.notes.append('regular expression at %s:%d (%s) not analysed: %s' % (path, line, func, r['unanalysed']))
+            ctx.assumptions.append('regular expression at %s:%d (%s) is linear-time (not analysed: %s)'
+                                   % (path, line, func, r['unanalysed']))
+        ctx.count('regex-site', 1, [('%s:%s' % (os.path.basename(path), func), 'analysed' if not r['unanalysed'] else 'not-analysed')])
+        for key, text, detail in r['problems']:
+            found = True
+            if key in seen:
+                continue
+            seen.add(key)
+            ctx.violation(key, text, {'regex_case': detail, 'site': [path, line, func, fn],
+                                      'how': 'harness/c08_strings.py site_worker(site): re.compile(pattern, flags).<call>(input)'})
+    ctx.cov['regex_sites'] = shown
+    ctx.cov['regex_bound'] = 'cpu(n) <= %.2f s + %.0e s * n, n up to 65535, per call' % (c08_strings.RX_C0, c08_strings.RX_C)
+    ctx.log('regex work: %d call sites of re.* in tlslite, %d inputs timed, %.1fs' % (
+        len(sites), sum(x['inputs_timed'] for x in shown), time.time() - t0))
+    return found
+
+
 def witness_hellos():
     """Concrete ClientHello bytes for the abstract values of Proofs/C08_Hello.v that refuted
     crash-freedom before /repo b10bb95 / 5fb1773 (site, exception they used to raise, bytes).  On the
@@ -315,6 +354,7 @@ def run(ctx):
         # ---- the property itself on the implementation (direct oracle; independent of Coq)
         found |= fuzz_stage(ctx, quick, pool)
         found |= decompress_contract(ctx, quick)
+        found |= regex_stage(ctx, pool)
         # ---- observable resumability after a failure (three-connection histories)
         t0 = time.time()
         rcases = c08_resume.gen_cases(ctx.rng, quick)
